@@ -598,3 +598,44 @@ def mixed_edges(spec, qntot):
         if less and more:
             res.append(i)
     return res
+
+
+def gen_mixed_star(rng):
+    """root (dummy or label-free spin) with 2..3 children, each child = label carrier + a multi-state
+    set with (partly) equal labels; carriers of different children hop.  This is the smallest shape on
+    which the complete side of a bond depends on the label block (see mixed_edges)."""
+    basis, nodes = [], []
+    root_sets = []
+    if rng.random() < 0.4:
+        basis.append(dict(kind="spin", dof="r", nbas=2, sigmaqn=[[0], [0]]))
+        root_sets = [0]
+    nodes.append(dict(parent=-1, sets=root_sets))
+    nchild = int(rng.choice([2, 2, 3]))
+    carriers = []
+    for c in range(nchild):
+        kind = str(rng.choice(["spin", "elec"]))
+        sq = [[0], [1]] if (kind == "elec" or rng.random() < 0.6) else [[1], [0]]
+        basis.append(dict(kind=kind, dof=(f"c{c}" if kind == "spin" else ["e", c]), nbas=2, sigmaqn=sq))
+        carriers.append(len(basis) - 1)
+        sets = [len(basis) - 1]
+        if nchild == 2 or rng.random() < 0.6:
+            nd = int(rng.integers(2, 4))
+            basis.append(dict(kind="me", dofs=[f"m{c}_{j}" for j in range(nd)], nbas=nd,
+                              sigmaqn=[[int(rng.integers(0, 2))] for _ in range(nd)]))
+            sets.append(len(basis) - 1)
+        rng.shuffle(sets)
+        nodes.append(dict(parent=0, sets=[int(x) for x in sets]))
+    spec = dict(qn_size=1, basis=basis, nodes=nodes, terms=[], family="mixed-star", trivial_qn=False)
+    spec["terms"] = gen_terms(rng, spec)
+    # make sure carriers of different children hop
+    have = any(len(t["dofs"]) == 2 and t["dofs"][0] != t["dofs"][1] for t in spec["terms"])
+    i, j = carriers[0], carriers[1]
+    (ui, li, di), (uj, lj, dj) = _raise_lower(basis[i], 1)[0], _raise_lower(basis[j], 1)[0]
+    c = float(np.round(rng.uniform(0.4, 1.0), 3))
+    if np.array_equal(di, dj):
+        spec["terms"].append(dict(symbol=f"{ui} {lj}", dofs=[basis[i]["dof"], basis[j]["dof"]], factor=c, qn=[di.tolist(), (-dj).tolist()]))
+        spec["terms"].append(dict(symbol=f"{li} {uj}", dofs=[basis[i]["dof"], basis[j]["dof"]], factor=c, qn=[(-di).tolist(), dj.tolist()]))
+    else:
+        spec["terms"].append(dict(symbol=f"{ui} {uj}", dofs=[basis[i]["dof"], basis[j]["dof"]], factor=c, qn=[di.tolist(), dj.tolist()]))
+        spec["terms"].append(dict(symbol=f"{li} {lj}", dofs=[basis[i]["dof"], basis[j]["dof"]], factor=c, qn=[(-di).tolist(), (-dj).tolist()]))
+    return spec
